@@ -1,7 +1,7 @@
 (* XrefMergeProofs.v -- C07, abstract core: Xref::merge over a Prev chain gives every object number
    the entry of the NEWEST section that has one; the Prev loop computes exactly that fold on every
    chain, stops on cycles, and never runs out of the fuel [load_fuel]. *)
-From LV Require Import Base.Bytes Base.Sx Model.Obj Model.Save Model.XrefMerge.
+From LV Require Import Base.Bytes Base.Sx Model.Obj Model.Save Model.XrefMerge Proofs.FilterProofsDict.
 
 (* ---------- the table ---------- *)
 Lemma xget_insert m k e k' :
@@ -110,12 +110,44 @@ Proof.
 Qed.
 
 (* ---------- the Prev loop ---------- *)
+(* what Reader::merge_xref_stream adds to the table of a section: the entries of the cross-reference stream
+   its trailer names by XRefStm (hybrid-reference file).  [stm_ok]: the key is absent / not an integer, or
+   names a section inside the buffer. *)
+Definition stm_target (L : layout) (tr : dict) : option section :=
+  match dict_get tr K_XRefStm with
+  | Some (OInt q) => if (q <? 0)%Z || (l_buflen L <? q)%Z then None else assocZ (l_secs L) q
+  | _ => None
+  end.
+Definition stm_ok (L : layout) (tr : dict) : Prop :=
+  match dict_get tr K_XRefStm with
+  | Some (OInt q) => (0 <= q <= l_buflen L)%Z /\ assocZ (l_secs L) q <> None
+  | _ => True
+  end.
+(* a section with the cross-reference stream of its trailer merged in *)
+Definition sec_full (L : layout) (s : section) : xref :=
+  match stm_target L (s_trailer s) with
+  | Some sx => xmerge (sec_xref s) (sec_xref sx)
+  | None => sec_xref s
+  end.
+
+Lemma merge_stm_ok L x tr : stm_ok L tr ->
+  merge_stm L x (dict_get tr K_XRefStm) =
+  LOk (match stm_target L tr with Some sx => xmerge x (sec_xref sx) | None => x end).
+Proof.
+  unfold stm_ok, stm_target, merge_stm, sec_at.
+  destruct (dict_get tr K_XRefStm) as [[| | q | | | | | | |]|]; try reflexivity.
+  intros [Hq Hs].
+  replace ((q <? 0)%Z || (l_buflen L <? q)%Z) with false
+    by (symmetry; apply orb_false_iff; split; apply Z.ltb_ge; lia).
+  destruct (assocZ (l_secs L) q); [reflexivity | contradiction].
+Qed.
+
 (* A chain: the sections the loop reads, in order, each named by the Prev of the one before. *)
 Fixpoint is_chain (L : layout) (prev : option obj) (c : list (Z * section)) : Prop :=
   match c with
   | [] => match prev with Some (OInt _) => False | _ => True end
   | (p, s) :: c' =>
-    prev = Some (OInt p) /\ (0 <= p <= l_buflen L)%Z /\ assocZ (l_secs L) p = Some s /\
+    prev = Some (OInt p) /\ (0 <= p <= l_buflen L)%Z /\ assocZ (l_secs L) p = Some s /\ stm_ok L (s_trailer s) /\
     is_chain L (dict_get (s_trailer s) K_Prev) c'
   end.
 
@@ -132,27 +164,29 @@ Lemma dict_get_swap_remove_absent d k :
   dict_get d k = None -> dict_swap_remove d k = d.
 Proof. intro H. unfold dict_swap_remove, dict_has. rewrite H. reflexivity. Qed.
 
-(* without an XRefStm key in the newest trailer, the loop is the fold of Xref::merge over the chain *)
+(* once the XRefStm key of the newest trailer is gone, the loop is the fold of Xref::merge over the chain,
+   every section with the cross-reference stream of ITS trailer merged in *)
 Lemma prev_loop_chain L : forall c fuel x tr seen prev,
   is_chain L prev c ->
   dict_get tr K_XRefStm = None ->
   NoDup (map fst c) -> (forall p, In p (map fst c) -> ~ In p seen) ->
   (length c <= fuel)%nat ->
-  prev_loop fuel L x tr seen prev = LOk (fold_left xmerge (map (fun ps => sec_xref (snd ps)) c) x, tr).
+  prev_loop fuel L x tr seen prev = LOk (fold_left xmerge (map (fun ps => sec_full L (snd ps)) c) x, tr).
 Proof.
   induction c as [|[p s] c IH]; intros fuel x tr seen prev Hc Hstm Hnd Hseen Hfuel.
   - cbn [is_chain] in Hc. cbn [map fold_left].
     destruct fuel; cbn [prev_loop]; destruct prev as [[]|]; try reflexivity; contradiction.
-  - cbn [is_chain] in Hc. destruct Hc as (-> & Hp & Hs & Hc).
+  - cbn [is_chain] in Hc. destruct Hc as (-> & Hp & Hs & Hok & Hc).
     destruct fuel as [|fuel]; [cbn [length] in Hfuel; lia|].
     cbn [prev_loop].
     assert (Hz : zmem p seen = false) by (apply zmem_false, Hseen; left; reflexivity).
     rewrite Hz.
     replace ((p <? 0)%Z || (l_buflen L <? p)%Z) with false
       by (symmetry; apply orb_false_iff; split; [apply Z.ltb_ge|apply Z.ltb_ge]; lia).
-    unfold sec_at. rewrite Hs, Hstm.
+    rewrite Hstm. cbn [merge_stm]. unfold sec_at at 1. rewrite Hs.
+    rewrite (merge_stm_ok L (sec_xref s) (s_trailer s) Hok).
     rewrite (dict_get_swap_remove_absent _ _ Hstm).
-    cbn [map fold_left snd].
+    cbn [map fold_left snd]. fold (sec_full L s).
     inversion Hnd as [|? ? Hnotin Hnd']; subst.
     apply IH; auto.
     + intros q Hq [Hqp|Hqs].
@@ -194,14 +228,15 @@ Proof.
   - cbn [prev_loop]. destruct prev as [[| | z | | | | | | |]|]; try discriminate.
     destruct (zmem z seen) eqn:Hz; [discriminate|].
     destruct ((z <? 0)%Z || (l_buflen L <? z)%Z); [discriminate|].
-    unfold sec_at. destruct (assocZ (l_secs L) z) as [s|] eqn:Hs; [|discriminate].
+    assert (Hm : forall y st, merge_stm L y st <> LOutOfFuel).
+    { intros y st. unfold merge_stm. destruct st as [[| | q | | | | | | |]|]; try discriminate.
+      destruct ((q <? 0)%Z || (l_buflen L <? q)%Z); [discriminate|]. destruct (sec_at L q) as [[sx ?]|]; discriminate. }
+    destruct (merge_stm L x (dict_get tr K_XRefStm)) as [x1|e|] eqn:E1; [|discriminate|exact (fun _ => Hm _ _ E1)].
+    unfold sec_at at 1. destruct (assocZ (l_secs L) z) as [s|] eqn:Hs; [|discriminate].
     assert (Hnd' : NoDup (z :: seen)) by (constructor; [apply zmem_false; exact Hz|exact Hnd]).
     assert (Hincl' : incl (z :: seen) (map fst (l_secs L))).
     { intros q [<-|Hq]; [eapply assocZ_In; exact Hs|apply Hincl; exact Hq]. }
-    destruct (dict_get tr K_XRefStm) as [[| | q | | | | | | |]|];
-      try (apply IH; [exact Hnd'|exact Hincl'|cbn [length]; lia]).
-    destruct ((q <? 0)%Z || (l_buflen L <? q)%Z); [discriminate|].
-    destruct (assocZ (l_secs L) q); [|discriminate].
+    destruct (merge_stm L (sec_xref s) (dict_get (s_trailer s) K_XRefStm)) as [px1|e|] eqn:E2; [|discriminate|exact (fun _ => Hm _ _ E2)].
     apply IH; [exact Hnd'|exact Hincl'|cbn [length]; lia].
 Qed.
 
@@ -219,56 +254,157 @@ Proof.
 Qed.
 
 (* ---------- appending a revision: reload and re-loadability ---------- *)
-(* A layout whose sections form a proper Prev chain from startxref (no cycle, no XRefStm in the newest trailer). *)
+(* A layout whose sections form a proper Prev chain from startxref, without cycle; hybrid-reference sections
+   (an XRefStm key naming a cross-reference stream inside the buffer) are allowed anywhere in the chain.
+   Trailer keys are unique (IndexMap). *)
 Definition chain_layout (L : layout) (s0 : section) (c : list (Z * section)) : Prop :=
   (0 <= l_startxref L <= l_buflen L)%Z /\
   assocZ (l_secs L) (l_startxref L) = Some s0 /\
-  dict_get (dict_swap_remove (s_trailer s0) K_Prev) K_XRefStm = None /\
+  dict_wf (s_trailer s0) /\ stm_ok L (s_trailer s0) /\
   is_chain L (dict_get (s_trailer s0) K_Prev) c /\
   NoDup (l_startxref L :: map fst c).
 
-(* the merged table of a chain layout: newest section first *)
-Definition chain_tabs (s0 : section) (c : list (Z * section)) : list xmap :=
-  map (fun s => parse_entries (s_stream s) (s_raw s)) (s0 :: map snd c).
+(* the newest section as the loop leaves it: its XRefStm is read in the first iteration, i.e. only when a Prev
+   section exists *)
+Definition head_xref (L : layout) (s0 : section) (c : list (Z * section)) : xref :=
+  match c with [] => sec_xref s0 | _ => sec_full L s0 end.
+Definition head_trailer (s0 : section) (c : list (Z * section)) : dict :=
+  match c with
+  | [] => dict_swap_remove (s_trailer s0) K_Prev
+  | _ => dict_swap_remove (dict_swap_remove (s_trailer s0) K_Prev) K_XRefStm
+  end.
+
+(* the tables in the order in which an object number is looked up: newest section first, and for every
+   section its own table, then the cross-reference stream its trailer names by XRefStm, then Prev *)
+Definition sec_tabs (L : layout) (s : section) : list xmap :=
+  parse_entries (s_stream s) (s_raw s) ::
+  match stm_target L (s_trailer s) with
+  | Some sx => [parse_entries (s_stream sx) (s_raw sx)]
+  | None => []
+  end.
+Definition chain_tabs (L : layout) (s0 : section) (c : list (Z * section)) : list xmap :=
+  match c with
+  | [] => [parse_entries (s_stream s0) (s_raw s0)]
+  | _ => flat_map (sec_tabs L) (s0 :: map snd c)
+  end.
+
+Lemma first_def_app a b k :
+  first_def (a ++ b) k = match first_def a k with Some e => Some e | None => first_def b k end.
+Proof. induction a as [|t a IH]; cbn [app first_def]; [reflexivity|]. destruct (xget t k); [reflexivity | exact IH]. Qed.
+
+Lemma sec_full_tabs L s k : xget (xr_entries (sec_full L s)) k = first_def (sec_tabs L s) k.
+Proof.
+  unfold sec_full, sec_tabs. destruct (stm_target L (s_trailer s)) as [sx|]; cbn [first_def xmerge xr_entries sec_xref].
+  - rewrite xget_merge. destruct (xget (parse_entries (s_stream s) (s_raw s)) k); [reflexivity|].
+    destruct (xget (parse_entries (s_stream sx) (s_raw sx)) k); reflexivity.
+  - destruct (xget (parse_entries (s_stream s) (s_raw s)) k); reflexivity.
+Qed.
+
+Lemma first_def_fulls L : forall (l : list section) k,
+  first_def (map (fun s => xr_entries (sec_full L s)) l) k = first_def (flat_map (sec_tabs L) l) k.
+Proof.
+  induction l as [|s l IH]; intro k; cbn [map flat_map first_def]; [reflexivity|].
+  rewrite first_def_app, <- sec_full_tabs. destruct (xget (xr_entries (sec_full L s)) k); [reflexivity | apply IH].
+Qed.
+
+Lemma stm_target_swap_prev (tr : dict) : dict_wf tr ->
+  dict_get (dict_swap_remove tr K_Prev) K_XRefStm = dict_get tr K_XRefStm.
+Proof. intro W. apply dict_get_swap_remove_other; [exact W | discriminate]. Qed.
+
+(* the Prev loop started on the newest section *)
+Lemma prev_loop_head L s0 c fuel :
+  chain_layout L s0 c -> (length c <= fuel)%nat ->
+  prev_loop fuel L (sec_xref s0) (dict_swap_remove (s_trailer s0) K_Prev) [] (dict_get (s_trailer s0) K_Prev) =
+  LOk (fold_left xmerge (map (fun ps => sec_full L (snd ps)) c) (head_xref L s0 c), head_trailer s0 c).
+Proof.
+  intros (Hb & Hs & W & Hok & Hc & Hnd) Hfuel.
+  destruct c as [|[p s] c].
+  - cbn [is_chain] in Hc. cbn [map fold_left head_xref head_trailer].
+    destruct fuel; cbn [prev_loop]; destruct (dict_get (s_trailer s0) K_Prev) as [[]|]; try reflexivity; contradiction.
+  - cbn [is_chain] in Hc. destruct Hc as (Ep & Hp & Hsp & Hokp & Hc). rewrite Ep.
+    destruct fuel as [|fuel]; [cbn [length] in Hfuel; lia|].
+    cbn [prev_loop zmem existsb].
+    replace ((p <? 0)%Z || (l_buflen L <? p)%Z) with false
+      by (symmetry; apply orb_false_iff; split; [apply Z.ltb_ge|apply Z.ltb_ge]; lia).
+    rewrite (stm_target_swap_prev _ W).
+    rewrite (merge_stm_ok L (sec_xref s0) (s_trailer s0) Hok). fold (sec_full L s0).
+    unfold sec_at at 1. rewrite Hsp.
+    rewrite (merge_stm_ok L (sec_xref s) (s_trailer s) Hokp). fold (sec_full L s).
+    cbn [map fold_left snd head_xref head_trailer].
+    inversion Hnd as [|? ? Hnotin Hnd']; subst. inversion Hnd' as [|? ? Hnotin' Hnd'']; subst.
+    apply prev_loop_chain; auto.
+    + apply dict_get_swap_remove_same. apply swap_remove_wf. exact W.
+    + intros q Hq [Hqp|[]]. subst q. exact (Hnotin' Hq).
+    + cbn [length] in Hfuel. lia.
+Qed.
 
 Theorem read_xref_chain : forall L s0 c fuel,
   chain_layout L s0 c -> (length c <= fuel)%nat ->
-  (xt_max_id (xr_entries (fold_left xmerge (map (fun ps => sec_xref (snd ps)) c) (sec_xref s0))) + 1 < 4294967296)%N ->
+  (xt_max_id (xr_entries (fold_left xmerge (map (fun ps => sec_full L (snd ps)) c) (head_xref L s0 c))) + 1 < 4294967296)%N ->
   exists m, read_xref fuel L = LOk m /\
-            m_trailer m = dict_swap_remove (s_trailer s0) K_Prev /\
+            m_trailer m = head_trailer s0 c /\
             m_start m = Z.to_N (l_startxref L) /\
             xr_stream (m_xref m) = s_stream s0 /\
-            forall k, xget (xr_entries (m_xref m)) k = first_def (chain_tabs s0 c) k.
+            forall k, xget (xr_entries (m_xref m)) k = first_def (chain_tabs L s0 c) k.
 Proof.
-  intros L s0 c fuel (Hb & Hs & Hstm & Hc & Hnd) Hfuel Hmax.
+  intros L s0 c fuel HL Hfuel Hmax.
+  pose proof (prev_loop_head L s0 c fuel HL Hfuel) as Hloop.
+  destruct HL as (Hb & Hs & W & Hok & Hc & Hnd).
   unfold read_xref.
   replace ((l_startxref L <? 0)%Z || (l_buflen L <? l_startxref L)%Z) with false
     by (symmetry; apply orb_false_iff; split; apply Z.ltb_ge; lia).
-  unfold sec_at. rewrite Hs.
-  inversion Hnd as [|? ? Hnotin Hnd']; subst.
-  rewrite (prev_loop_chain L c fuel (sec_xref s0) _ [] _ Hc Hstm Hnd' (fun _ _ H => H) Hfuel).
+  unfold sec_at. rewrite Hs, Hloop.
   apply N.ltb_lt in Hmax. rewrite N.leb_antisym, Hmax. cbn [negb].
   eexists. split; [reflexivity|]. cbn [m_trailer m_start m_xref xr_stream xr_entries].
   split; [reflexivity|]. split; [reflexivity|]. split.
-  - rewrite fold_xmerge_stream. reflexivity.
-  - intro k. rewrite merge_chain_latest. unfold chain_tabs. cbn [map].
-    rewrite !map_map. reflexivity.
+  - rewrite fold_xmerge_stream. destruct c; [reflexivity|]. cbn [head_xref]. unfold sec_full.
+    destruct (stm_target L (s_trailer s0)); reflexivity.
+  - intro k. rewrite merge_chain_latest. destruct c as [|ps c].
+    + cbn [map head_xref chain_tabs first_def sec_xref xr_entries]. reflexivity.
+    + unfold chain_tabs, head_xref.
+      change (map xr_entries (sec_full L s0 :: map (fun ps0 => sec_full L (snd ps0)) (ps :: c)))
+        with (map xr_entries (map (sec_full L) (s0 :: map snd (ps :: c)))) at 1 || idtac.
+      rewrite <- first_def_fulls. cbn [map]. rewrite !map_map. reflexivity.
 Qed.
 
 (* appending one revision: a new section at a fresh offset whose Prev is the old startxref *)
 Definition extend_layout (L : layout) (off : Z) (sec : section) (objs : list (N * placed)) (len : Z) : layout :=
   {| l_buflen := len; l_startxref := off; l_secs := (off, sec) :: l_secs L; l_objs := objs ++ l_objs L |}.
 
+Lemma stm_extend L off sec objs len tr :
+  (l_buflen L < off)%Z -> (l_buflen L <= len)%Z -> stm_ok L tr ->
+  stm_ok (extend_layout L off sec objs len) tr /\ stm_target (extend_layout L off sec objs len) tr = stm_target L tr.
+Proof.
+  intros Hoff Hlen. unfold stm_ok, stm_target. destruct (dict_get tr K_XRefStm) as [[| | q | | | | | | |]|]; try (intros; split; [exact I | reflexivity]).
+  intros [Hq Hs]. cbn [extend_layout l_buflen l_secs assocZ].
+  replace (off =? q)%Z with false by (symmetry; apply Z.eqb_neq; lia).
+  split; [split; [lia | exact Hs]|].
+  replace ((q <? 0)%Z || (len <? q)%Z) with false by (symmetry; apply orb_false_iff; split; apply Z.ltb_ge; lia).
+  replace ((q <? 0)%Z || (l_buflen L <? q)%Z) with false by (symmetry; apply orb_false_iff; split; apply Z.ltb_ge; lia).
+  reflexivity.
+Qed.
+
 Lemma is_chain_extend L off sec objs len : forall c prev,
-  (l_buflen L <= len)%Z -> ~ In off (map fst c) ->
+  (l_buflen L < off)%Z -> (l_buflen L <= len)%Z -> ~ In off (map fst c) ->
   is_chain L prev c -> is_chain (extend_layout L off sec objs len) prev c.
 Proof.
-  induction c as [|[p s] c IH]; intros prev Hlen Hoff Hc; cbn [is_chain] in *; [exact Hc|].
-  destruct Hc as (-> & Hp & Hs & Hc). cbn [map fst In] in Hoff.
-  split; [reflexivity|]. split; [cbn [extend_layout l_buflen]; lia|]. split.
+  induction c as [|[p s] c IH]; intros prev Hoff0 Hlen Hoff Hc; cbn [is_chain] in *; [exact Hc|].
+  destruct Hc as (-> & Hp & Hs & Hok & Hc). cbn [map fst In] in Hoff.
+  split; [reflexivity|]. split; [cbn [extend_layout l_buflen]; lia|]. split; [|split].
   - cbn [extend_layout l_secs assocZ]. destruct (off =? p)%Z eqn:E; [|exact Hs].
     apply Z.eqb_eq in E. exfalso. apply Hoff. left. symmetry. exact E.
-  - apply IH; [exact Hlen| |exact Hc]. intro H. apply Hoff. right. exact H.
+  - apply (stm_extend L off sec objs len _ Hoff0 Hlen Hok).
+  - apply IH; [exact Hoff0 | exact Hlen | |exact Hc]. intro H. apply Hoff. right. exact H.
+Qed.
+
+(* the sections of the old chain contribute the same tables in the extended layout *)
+Lemma chain_fulls_extend L off sec objs len : forall c prev,
+  (l_buflen L < off)%Z -> (l_buflen L <= len)%Z -> is_chain L prev c ->
+  map (fun ps => sec_full (extend_layout L off sec objs len) (snd ps)) c = map (fun ps => sec_full L (snd ps)) c.
+Proof.
+  induction c as [|[p s] c IH]; intros prev Hoff Hlen Hc; [reflexivity|]. cbn [is_chain] in Hc.
+  destruct Hc as (_ & _ & _ & Hok & Hc). cbn [map snd]. f_equal; [|apply (IH _ Hoff Hlen Hc)].
+  unfold sec_full. destruct (stm_extend L off sec objs len _ Hoff Hlen Hok) as [_ ->]. reflexivity.
 Qed.
 
 (* re-loadability: the extended layout is again a chain layout, one section longer *)
@@ -277,58 +413,73 @@ Theorem extend_chain_layout : forall L s0 c off sec objs len,
   (l_buflen L < off <= len)%Z ->
   (forall p, In p (l_startxref L :: map fst c) -> (p <= l_buflen L)%Z) ->
   dict_get (s_trailer sec) K_Prev = Some (OInt (l_startxref L)) ->
-  dict_get (dict_swap_remove (s_trailer sec) K_Prev) K_XRefStm = None ->
+  dict_wf (s_trailer sec) -> stm_ok (extend_layout L off sec objs len) (s_trailer sec) ->
   chain_layout (extend_layout L off sec objs len) sec ((l_startxref L, s0) :: c).
 Proof.
-  intros L s0 c off sec objs len (Hb & Hs & Hstm & Hc & Hnd) Hoff Hold Hprev Hx.
+  intros L s0 c off sec objs len (Hb & Hs & W & Hok & Hc & Hnd) Hoff Hold Hprev Wn Hx.
   assert (Hfresh : ~ In off (l_startxref L :: map fst c)).
   { intro H. specialize (Hold off H). lia. }
   unfold chain_layout. cbn [extend_layout l_startxref l_buflen l_secs assocZ].
-  split; [lia|]. rewrite Z.eqb_refl. split; [reflexivity|]. split; [exact Hx|]. split.
-  - cbn [is_chain]. split; [exact Hprev|]. split; [cbn [extend_layout l_buflen]; lia|]. split.
+  split; [lia|]. rewrite Z.eqb_refl. split; [reflexivity|]. split; [exact Wn|]. split; [exact Hx|]. split.
+  - cbn [is_chain]. split; [exact Hprev|]. split; [cbn [extend_layout l_buflen]; lia|]. split; [|split].
     + cbn [extend_layout l_secs assocZ]. destruct (off =? l_startxref L)%Z eqn:E; [|exact Hs].
       apply Z.eqb_eq in E. exfalso. apply Hfresh. left. symmetry. exact E.
-    + apply is_chain_extend; [lia| |exact Hc]. intro H. apply Hfresh. right. exact H.
+    + apply (stm_extend L off sec objs len); [lia | lia | exact Hok].
+    + apply is_chain_extend; [lia | lia | |exact Hc]. intro H. apply Hfresh. right. exact H.
   - cbn [map fst]. constructor; [exact Hfresh|exact Hnd].
 Qed.
 
 (* inc_save_reload at the level of the cross-reference table: after appending a revision the merged
-   table gives every object number the entry of the NEW section if it has one, and otherwise exactly
-   the entry the reader found before the update. *)
+   table gives every object number the entry of the NEW section (its own table, then the cross-reference
+   stream its trailer names) if it has one, and otherwise exactly the entry the reader found before the
+   update.  (A single hybrid-reference section is the one exception the hypothesis excludes: its XRefStm is
+   not read as long as it has no Prev, and is read once it is reached through Prev.) *)
 Theorem reload_after_append : forall L s0 c off sec objs len m fuel,
   chain_layout L s0 c ->
   read_xref fuel L = LOk m -> (length c <= fuel)%nat ->
   (l_buflen L < off <= len)%Z ->
   (forall p, In p (l_startxref L :: map fst c) -> (p <= l_buflen L)%Z) ->
   dict_get (s_trailer sec) K_Prev = Some (OInt (l_startxref L)) ->
-  dict_get (dict_swap_remove (s_trailer sec) K_Prev) K_XRefStm = None ->
-  (xt_max_id (xr_entries (fold_left xmerge (map (fun ps => sec_xref (snd ps)) ((l_startxref L, s0) :: c)) (sec_xref sec))) + 1
-     < 4294967296)%N ->
+  dict_wf (s_trailer sec) -> stm_ok (extend_layout L off sec objs len) (s_trailer sec) ->
+  (c = [] -> stm_target L (s_trailer s0) = None) ->
+  (xt_max_id (xr_entries (fold_left xmerge (map (fun ps => sec_full (extend_layout L off sec objs len) (snd ps)) ((l_startxref L, s0) :: c))
+                                    (sec_full (extend_layout L off sec objs len) sec))) + 1 < 4294967296)%N ->
   exists m', read_xref (S fuel) (extend_layout L off sec objs len) = LOk m' /\
-             m_trailer m' = dict_swap_remove (s_trailer sec) K_Prev /\
+             m_trailer m' = dict_swap_remove (dict_swap_remove (s_trailer sec) K_Prev) K_XRefStm /\
              m_start m' = Z.to_N off /\
              forall k, xget (xr_entries (m_xref m')) k =
-                       match xget (parse_entries (s_stream sec) (s_raw sec)) k with
+                       match first_def (sec_tabs (extend_layout L off sec objs len) sec) k with
                        | Some e => Some e
                        | None => xget (xr_entries (m_xref m)) k
                        end.
 Proof.
-  intros L s0 c off sec objs len m fuel HL Hread Hfuel Hoff Hold Hprev Hx Hmax.
-  pose proof (extend_chain_layout L s0 c off sec objs len HL Hoff Hold Hprev Hx) as HL'.
-  destruct (read_xref_chain _ _ _ (S fuel) HL' ltac:(cbn [length]; lia) Hmax) as (m' & Hr' & Ht' & Hs' & _ & He').
+  intros L s0 c off sec objs len m fuel HL Hread Hfuel Hoff Hold Hprev Wn Hx Hsingle Hmax.
+  pose proof (extend_chain_layout L s0 c off sec objs len HL Hoff Hold Hprev Wn Hx) as HL'.
+  set (L' := extend_layout L off sec objs len) in *.
+  destruct (read_xref_chain L' sec ((l_startxref L, s0) :: c) (S fuel) HL' ltac:(cbn [length]; lia) Hmax) as (m' & Hr' & Ht' & Hs' & _ & He').
   exists m'. split; [exact Hr'|]. split; [exact Ht'|]. split; [exact Hs'|].
-  intro k. rewrite He'. unfold chain_tabs. cbn [map first_def snd].
-  destruct (xget (parse_entries (s_stream sec) (s_raw sec)) k); [reflexivity|].
+  intro k. rewrite He'. unfold chain_tabs. cbn [flat_map map snd]. rewrite first_def_app.
+  destruct (first_def (sec_tabs L' sec) k); [reflexivity|].
   (* the old run *)
-  destruct HL as (Hb & Hs & Hstm & Hc & Hnd).
+  pose proof (prev_loop_head L s0 c fuel HL Hfuel) as Hloop.
+  destruct HL as (Hb & Hs & W & Hok & Hc & Hnd).
   unfold read_xref in Hread.
   replace ((l_startxref L <? 0)%Z || (l_buflen L <? l_startxref L)%Z) with false in Hread
     by (symmetry; apply orb_false_iff; split; apply Z.ltb_ge; lia).
-  unfold sec_at in Hread. rewrite Hs in Hread.
-  inversion Hnd as [|? ? Hnotin Hnd']; subst.
-  rewrite (prev_loop_chain L c fuel (sec_xref s0) _ [] _ Hc Hstm Hnd' (fun _ _ H => H) Hfuel) in Hread.
-  destruct (4294967296 <=? xt_max_id (xr_entries (fold_left xmerge (map (fun ps => sec_xref (snd ps)) c) (sec_xref s0))) + 1)%N;
+  unfold sec_at in Hread. rewrite Hs, Hloop in Hread.
+  destruct (4294967296 <=? xt_max_id (xr_entries (fold_left xmerge (map (fun ps => sec_full L (snd ps)) c) (head_xref L s0 c))) + 1)%N;
     [discriminate|].
   inversion Hread; subst m. cbn [m_xref xr_entries].
-  rewrite merge_chain_latest. cbn [map first_def]. rewrite !map_map. reflexivity.
+  rewrite merge_chain_latest.
+  (* the old sections contribute the same tables in the new layout *)
+  assert (Esame : forall s, stm_ok L (s_trailer s) -> sec_tabs L' s = sec_tabs L s).
+  { intros s Hs0. unfold sec_tabs, L'. destruct (stm_extend L off sec objs len _ ltac:(lia) ltac:(lia) Hs0) as [_ ->]. reflexivity. }
+  assert (Eold : forall c0 prev, is_chain L prev c0 -> flat_map (sec_tabs L') (map snd c0) = flat_map (sec_tabs L) (map snd c0)).
+  { induction c0 as [|[p s] c0 IH]; intros prev H0; [reflexivity|]. cbn [is_chain] in H0. destruct H0 as (_ & _ & _ & Hk & H0).
+    cbn [map snd flat_map]. rewrite (Esame s Hk), (IH _ H0). reflexivity. }
+  rewrite (Esame s0 Hok), (Eold c _ Hc).
+  change (sec_tabs L s0 ++ flat_map (sec_tabs L) (map snd c)) with (flat_map (sec_tabs L) (s0 :: map snd c)).
+  rewrite <- first_def_fulls. cbn [map]. rewrite !map_map.
+  destruct c as [|ps c]; [|reflexivity].
+  cbn [map head_xref first_def]. unfold sec_full. rewrite (Hsingle eq_refl). reflexivity.
 Qed.
